@@ -54,10 +54,11 @@ import (
 // ---------------------------------------------------------------------------------------------
 
 type posIn struct {
-	Lo int64  `json:"lo"`
-	Hi int64  `json:"hi"`
-	A0 string `json:"a0"`
-	A1 string `json:"a1"`
+	Rel bool   `json:"rel"` // Lo / Hi are offsets from the pool's current tick (rounded to the tick spacing)
+	Lo  int64  `json:"lo"`
+	Hi  int64  `json:"hi"`
+	A0  string `json:"a0"`
+	A1  string `json:"a1"`
 }
 
 type poolIn struct {
@@ -136,6 +137,7 @@ type rec struct {
 	PErr   int    `json:"perr"`   // probe (swaps only): 0 ok, else error
 	P1     string `json:"p1"`
 	P2     string `json:"p2"`
+	Cross  int    `json:"cross"` // concentrated pools: initialised ticks between the tick before and after the real swap
 }
 
 // one message / query of a sub-run, as executed (concrete amounts)
@@ -264,6 +266,36 @@ func (w *world) fund(ctx sdk.Context, a sdk.AccAddress, coins sdk.Coins) {
 	}
 }
 
+func (w *world) clTick(ctx sdk.Context, id uint64) (int64, bool) {
+	p, err := w.h.App.ConcentratedLiquidityKeeper.GetConcentratedPoolById(ctx, id)
+	if err != nil {
+		return 0, false
+	}
+	return p.GetCurrentTick(), true
+}
+
+// number of initialised ticks strictly between the current tick before and after a swap (a statistic for the evidence)
+func (w *world) crossed(ctx sdk.Context, id uint64, t0 int64) int {
+	t1, ok := w.clTick(ctx, id)
+	if !ok {
+		return 0
+	}
+	if t1 < t0 {
+		t0, t1 = t1, t0
+	}
+	ticks, err := w.h.App.ConcentratedLiquidityKeeper.GetAllInitializedTicksForPool(ctx, id)
+	if err != nil {
+		return 0
+	}
+	n := 0
+	for _, t := range ticks {
+		if t.TickIndex > t0 && t.TickIndex <= t1 {
+			n++
+		}
+	}
+	return n
+}
+
 // ---- recording proxy around a pool module ----
 
 type proxy struct {
@@ -317,8 +349,12 @@ func (p proxy) SwapExactAmountIn(ctx sdk.Context, sender sdk.AccAddress, pool pm
 		r.P2 = out.String()
 	}()
 	b0 := bk.GetBalance(ctx, sender, tokenIn.Denom).Amount
+	t0, isCL := w.clTick(ctx, pool.GetId())
 	out, err := p.PoolModuleI.SwapExactAmountIn(ctx, sender, pool, tokenIn, tokenOutDenom, minOut, spread)
 	r.Err = errk(err)
+	if err == nil && isCL {
+		r.Cross = w.crossed(ctx, pool.GetId(), t0)
+	}
 	if err == nil {
 		r.R1 = b0.Sub(bk.GetBalance(ctx, sender, tokenIn.Denom).Amount).String()
 		r.R2 = out.String()
@@ -355,8 +391,12 @@ func (p proxy) SwapExactAmountOut(ctx sdk.Context, sender sdk.AccAddress, pool p
 		r.P2 = bk.GetBalance(pctx, w.rich, tokenOut.Denom).Amount.Sub(b0).String()
 	}()
 	b0 := bk.GetBalance(ctx, sender, tokenOut.Denom).Amount
+	t0, isCL := w.clTick(ctx, pool.GetId())
 	in, err := p.PoolModuleI.SwapExactAmountOut(ctx, sender, pool, tokenInDenom, maxIn, tokenOut, spread)
 	r.Err = errk(err)
+	if err == nil && isCL {
+		r.Cross = w.crossed(ctx, pool.GetId(), t0)
+	}
 	if err == nil {
 		r.R1 = in.String()
 		r.R2 = bk.GetBalance(ctx, sender, tokenOut.Denom).Amount.Sub(b0).String()
@@ -461,9 +501,25 @@ func setup(t *testing.T, c caseIn) (w *world, fatal string) {
 			if err == nil {
 				for _, ps := range p.Pos {
 					coins := sdk.NewCoins(sdk.NewCoin(c.Denoms[p.D[0]], bi(ps.A0)), sdk.NewCoin(c.Denoms[p.D[1]], bi(ps.A1)))
+					lo, hi := ps.Lo, ps.Hi
+					if ps.Rel {
+						cp, e := app.ConcentratedLiquidityKeeper.GetConcentratedPoolById(ctx, id)
+						if e != nil {
+							panic(e)
+						}
+						ts := int64(p.TS)
+						fl := func(x int64) int64 { // round down to a multiple of the tick spacing
+							q := x / ts
+							if x%ts != 0 && x < 0 {
+								q--
+							}
+							return q * ts
+						}
+						lo, hi = fl(cp.GetCurrentTick()+ps.Lo), fl(cp.GetCurrentTick()+ps.Hi)+ts
+					}
 					// a position that cannot be created (e.g. one-sided range needing the other token) is skipped
 					_ = apph.Atomic(ctx, func(cc sdk.Context) error {
-						_, e := app.ConcentratedLiquidityKeeper.CreatePosition(cc, id, w.lp, coins, osmomath.ZeroInt(), osmomath.ZeroInt(), ps.Lo, ps.Hi)
+						_, e := app.ConcentratedLiquidityKeeper.CreatePosition(cc, id, w.lp, coins, osmomath.ZeroInt(), osmomath.ZeroInt(), lo, hi)
 						return e
 					})
 				}
@@ -505,7 +561,16 @@ func setup(t *testing.T, c caseIn) (w *world, fatal string) {
 					return e
 				}
 				coins := sdk.NewCoins(sdk.NewCoin(p.GetToken0(), bi(pr.Amt)), sdk.NewCoin(p.GetToken1(), bi(pr.Amt)))
-				_, e = app.ConcentratedLiquidityKeeper.CreatePosition(cc, id, w.lp, coins, osmomath.ZeroInt(), osmomath.ZeroInt(), pr.Lo, pr.Hi)
+				ts := int64(p.GetTickSpacing())
+				fl := func(x int64) int64 {
+					q := x / ts
+					if x%ts != 0 && x < 0 {
+						q--
+					}
+					return q * ts
+				}
+				// Lo / Hi are offsets from the current tick
+				_, e = app.ConcentratedLiquidityKeeper.CreatePosition(cc, id, w.lp, coins, osmomath.ZeroInt(), osmomath.ZeroInt(), fl(p.GetCurrentTick()+pr.Lo), fl(p.GetCurrentTick()+pr.Hi)+ts)
 				return e
 			})
 			continue
